@@ -546,7 +546,15 @@ def _loaders(R, B, k, only):
             R.add("transitions", 2)
             R.cls("loader:tabix")
             txt = os.path.join(d, f"t{ob}.txt")
-            _write_lines(txt, [(r[0], r[1] + ob, "+", r[2], r[3] + ob, "-") for r in up] + [(names[-1], sizes[names[-1]] - 1 + ob, "+", UNKNOWN, 3, "-")])
+            # runs of consecutive records whose SECOND chromosome is unlisted are interleaved (same chrom1/pos1, so the file stays
+            # position-sorted): before the first listed record, between listed records and at the end - they must all be dropped
+            rows = []
+            for qi, r in enumerate(up):
+                if qi % 3 == 0:
+                    rows += [(r[0], r[1] + ob, "+", UNKNOWN, 3, "-"), (r[0], r[1] + ob, "+", UNKNOWN + "2", 1, "-"), (r[0], r[1] + ob, "+", UNKNOWN, 900, "-")]
+                rows.append((r[0], r[1] + ob, "+", r[2], r[3] + ob, "-"))
+            rows += [(names[-1], sizes[names[-1]] - 1 + ob, "+", UNKNOWN, 3, "-"), (names[-1], sizes[names[-1]] - 1 + ob, "+", UNKNOWN, 4, "-")]
+            _write_lines(txt, rows)
             gz = txt + ".gz"
             try:
                 pysam.tabix_compress(txt, gz, force=True)
